@@ -77,7 +77,7 @@ def setup_interp(ctx, contract, registry):
 
 
 def run_path(contract, decisions, registry, first):
-    ctx = Ctx(decisions)
+    ctx = Ctx(decisions, new_path=True)
     ip = setup_interp(ctx, contract, registry)
     info = ip.repo.func(contract.qualname)
     contract.bind_loops(info.node)
@@ -100,7 +100,7 @@ def run_path(contract, decisions, registry, first):
         old = Snapshot(ip, args)
         for _n, _v in list(ctx.inputs.items()):
             ctx.inputs[_n] = old.clone(_v)      # counter-models describe the pre-state
-        ip.entry_old = NS(dict(old.roots, ghost=NS(old.ghost)))
+        ip.entry_old = NS(dict(old.roots, ghost=NS(old.ghost), _snap=old))
         env['old'] = ip.entry_old
         # resolve the frame against the entry heap
         allowed = None
@@ -258,13 +258,16 @@ def verify_lemma(name):
     rep = FunctionReport('lemma:' + name, 'lemma:' + name)
     t0 = time.time()
     try:
-        ctx = Ctx()
+        ctx = Ctx(new_path=True)
         ip = Interp(ctx)
         E = Env(ip)
         goals = lem.fn(E)
         rep.requires_sat = ctx.feasible(z3.BoolVal(True))
         for label, g in goals.items():
-            ctx.oblige('lemma:%s/%s' % (name, label), ops.bterm(_b(g)))
+            try:
+                ctx.oblige('lemma:%s/%s' % (name, label), ops.bterm(_b(g)))
+            except PathEnd:
+                break
         for r in ctx.results:
             rep.add(r)
         rep.paths = 1
